@@ -40,10 +40,12 @@ TRUSTED = ["statsmodels import shim (cross-set constructors)", "xarray.backends.
 
 TOL = 1e-10
 
-CROSS = {"CPCCA", "MCA", "CPCCARotator", "ComplexCPCCA", "ComplexMCA", "MCARotator", "HilbertMCA"}
+CROSS = {"CPCCA", "MCA", "CPCCARotator", "ComplexCPCCA", "ComplexMCA", "MCARotator", "HilbertMCA", "MCA@rotated", "CPCCA@rotated"}
+# "<M>@rotated": the model M itself, serialised after it has been handed to a rotator's fit (a model "used by a rotator")
+USED = {"EOF@rotated": "EOFRotator", "MCA@rotated": "MCARotator", "CPCCA@rotated": "CPCCARotator", "ComplexEOF@rotated": "ComplexEOFRotator"}
 ROT = {"EOFRotator": "EOF", "CPCCARotator": "CPCCA", "MCARotator": "MCA", "ComplexEOFRotator": "ComplexEOF"}
-MODELS_Q = ["EOF", "HilbertEOF", "POP", "EOFRotator", "CPCCA", "MCA", "CPCCARotator", "ComplexMCA"]
-MODELS_T = ["EOF", "ComplexEOF", "HilbertEOF", "ExtendedEOF", "SparsePCA", "POP", "OPA", "EOFRotator", "ComplexEOFRotator", "CPCCA", "MCA", "CPCCARotator", "MCARotator", "ComplexCPCCA", "ComplexMCA", "HilbertMCA"]
+MODELS_Q = ["EOF", "HilbertEOF", "POP", "EOFRotator", "CPCCA", "MCA", "CPCCARotator", "ComplexMCA", "EOF@rotated", "MCA@rotated"]
+MODELS_T = ["EOF", "ComplexEOF", "HilbertEOF", "ExtendedEOF", "SparsePCA", "POP", "OPA", "EOFRotator", "ComplexEOFRotator", "CPCCA", "MCA", "CPCCARotator", "MCARotator", "ComplexCPCCA", "ComplexMCA", "HilbertMCA", "EOF@rotated", "MCA@rotated", "CPCCA@rotated", "ComplexEOF@rotated"]
 INPUTS_Q = ["da", "ds", "mi"]
 INPUTS_T = ["da", "ds", "list", "mi", "two_sample", "nan"]
 ATTRS = {
@@ -162,7 +164,7 @@ def build_fitted(model, inp):
     import xeofs as xe
 
     rs = dict(random_state=5)
-    base = ROT.get(model, model)
+    base = ROT.get(model, model).split("@")[0]
     if base == "EOF":
         m = xe.single.EOF(n_modes=3, **rs)
     elif base == "ComplexEOF":
@@ -193,16 +195,16 @@ def build_fitted(model, inp):
         m.fit(inp["X"], inp["Y"], dim=inp["dim"], weights_X=inp.get("W"))
     else:
         m.fit(inp["X"], dim=inp["dim"], weights=inp.get("W"))
-    if model in ROT:
-        cls = {"EOFRotator": xe.single.EOFRotator, "ComplexEOFRotator": xe.single.ComplexEOFRotator, "CPCCARotator": xe.cross.CPCCARotator, "MCARotator": xe.cross.MCARotator}[model]
+    if model in ROT or model in USED:
+        cls = {"EOFRotator": xe.single.EOFRotator, "ComplexEOFRotator": xe.single.ComplexEOFRotator, "CPCCARotator": xe.cross.CPCCARotator, "MCARotator": xe.cross.MCARotator}[USED.get(model, model)]
         r = cls(n_modes=2, power=2)
         r.fit(m)
-        return r
+        return m if model in USED else r
     return m
 
 
 def needs_complex(model):
-    return model in ("ComplexEOF", "ComplexEOFRotator", "ComplexCPCCA", "ComplexMCA")
+    return model in ("ComplexEOF", "ComplexEOFRotator", "ComplexCPCCA", "ComplexMCA", "ComplexEOF@rotated")
 
 
 def _call(f, *a, **k):
@@ -329,7 +331,7 @@ def rounds(tier, seed):
         for c, r in zip(frontier, res):
             if c.get("leaf") or r.get("violations") or level >= depth:
                 continue
-            if tier == "quick" and c["model"] in ROT and level >= 1:
+            if tier == "quick" and (c["model"] in ROT or c["model"] in USED) and level >= 1:
                 continue  # rotator fits cost ~1 s each: depth 1 in the quick tier, full depth in the thorough tier
             fp = r.get("info", {}).get("fp")
             key = (c["model"], c["input"])
